@@ -169,6 +169,18 @@ def replay(ob):
     w = ob.witness or {}
     if "sg" in w:
         groups = [w["sg"]] + groups
+    # every space group type once (general-position probes)
+    for sg in range(1, 231):
+        try:
+            a = tr.analyze(tr.pinned_probe(sg, npin=2))
+            if int(a.get_space_group_number()) == sg and bool(a.get_is_chiral()) != tabvc.is_sohncke(sg):
+                bad.append({"sg": sg, "get_is_chiral": bool(a.get_is_chiral()), "sohncke": tabvc.is_sohncke(sg)})
+        except Exception as e:  # noqa
+            bad.append((sg, "%s: %s" % (type(e).__name__, e)))
+        if len(bad) >= 3:
+            return {"reproduced": True, "failing_inputs": bad[:3]}
+    if bad:
+        return {"reproduced": True, "failing_inputs": bad[:3]}
     # one analyzer used for several crystals in turn: nothing of the previous crystal may survive set_system
     try:
         a = tr.analyze(tr.pinned_probe(1, npin=2))
